@@ -1,0 +1,339 @@
+//go:build verif
+
+package packet
+
+import "net/netip"
+
+// C02 field table: every getter of a valid view returns the value at its
+// RFC-defined position. Written from RFC 791, 768, 793, 8200, 826, 792, 4443,
+// 4861, 2131, 1035 and IEEE 802.3 - not from the code.
+
+func spec_be32(p []byte, o int) uint32 {
+	return uint32(p[o])<<24 | uint32(p[o+1])<<16 | uint32(p[o+2])<<8 | uint32(p[o+3])
+}
+func spec_ip4_at(p []byte, o int) netip.Addr {
+	return netip.AddrFrom4([4]byte{p[o], p[o+1], p[o+2], p[o+3]})
+}
+func spec_ip6_at(p []byte, o int) netip.Addr {
+	return netip.AddrFrom16([16]byte{p[o], p[o+1], p[o+2], p[o+3], p[o+4], p[o+5], p[o+6], p[o+7],
+		p[o+8], p[o+9], p[o+10], p[o+11], p[o+12], p[o+13], p[o+14], p[o+15]})
+}
+
+// spec_sub: r is exactly p[lo:hi].
+func spec_sub(r []byte, p []byte, lo, hi int) bool {
+	return len(r) == hi-lo && (hi == lo || (vSameRegion(r, p) && vOffset(r, p) == lo))
+}
+
+//verif:props C02
+func verif_lemma_fields_Ether(p Ether) {
+	if p.IsValid() != nil {
+		return
+	}
+	vCanary()
+	vAssert(spec_sub(p.Dst(), p, 0, 6))
+	vAssert(spec_sub(p.Src(), p, 6, 12))
+	vAssert(p.EtherType() == spec_be16(p, 12))
+	et := spec_be16(p, 12)
+	hl := 14
+	if et == 0x8100 {
+		hl = 18
+	} else if et == 0x88a8 {
+		hl = 22
+	}
+	vAssert(p.HeaderLen() == hl)
+	if len(p) > hl {
+		vAssert(spec_sub(p.Payload(), p, hl, len(p)))
+	}
+}
+
+//verif:props C02
+func verif_lemma_fields_IP4(p IP4) {
+	if p.IsValid() != nil {
+		return
+	}
+	vCanary()
+	vAssert(p.Version() == int(p[0]>>4))
+	vAssert(p.IHL() == 4*int(p[0]&0x0f))
+	vAssert(p.TOS() == int(p[1]))
+	vAssert(p.TotalLen() == int(spec_be16(p, 2)))
+	vAssert(p.ID() == int(spec_be16(p, 4)))
+	vAssert(p.Flags() == p[6]&0xe0)
+	vAssert(p.FlagDontFragment() == (p[6]&0x40 != 0))
+	vAssert(p.FlagMoreFragments() == (p[6]&0x20 != 0))
+	vAssert(p.Fragment() == spec_be16(p, 6)&0x1fff)
+	vAssert(p.TTL() == int(p[8]))
+	vAssert(p.Protocol() == p[9])
+	vAssert(p.Checksum() == int(spec_be16(p, 10)))
+	vAssert(p.Src() == spec_ip4_at(p, 12))
+	vAssert(p.Dst() == spec_ip4_at(p, 16))
+	vAssert(spec_sub(p.Payload(), p, 4*int(p[0]&0x0f), int(spec_be16(p, 2))))
+}
+
+//verif:props C02
+func verif_lemma_fields_IP6(p IP6) {
+	if p.IsValid() != nil {
+		return
+	}
+	vCanary()
+	vAssert(p.Version() == int(p[0]>>4))
+	vAssert(p.TrafficClass() == int(p[0]&0x0f)<<4|int(p[1]>>4))
+	vAssert(p.FlowLabel() == int(p[1]&0x0f)<<16|int(p[2])<<8|int(p[3]))
+	vAssert(p.PayloadLen() == spec_be16(p, 4))
+	vAssert(p.NextHeader() == p[6])
+	vAssert(p.HopLimit() == p[7])
+	vAssert(p.Src() == spec_ip6_at(p, 8))
+	vAssert(p.Dst() == spec_ip6_at(p, 24))
+	vAssert(p.HeaderLen() == 40)
+	vAssert(spec_sub(p.Payload(), p, 40, len(p)))
+}
+
+//verif:props C02
+func verif_lemma_fields_UDP(p UDP) {
+	if p.IsValid() != nil {
+		return
+	}
+	vCanary()
+	vAssert(p.SrcPort() == spec_be16(p, 0))
+	vAssert(p.DstPort() == spec_be16(p, 2))
+	vAssert(p.Len() == spec_be16(p, 4))
+	vAssert(p.Checksum() == spec_be16(p, 6))
+	vAssert(p.HeaderLen() == 8)
+	vAssert(spec_sub(p.Payload(), p, 8, len(p)))
+}
+
+//verif:props C02
+func verif_lemma_fields_TCP(p TCP) {
+	if p.IsValid() != nil {
+		return
+	}
+	vCanary()
+	vAssert(p.SrcPort() == spec_be16(p, 0))
+	vAssert(p.DstPort() == spec_be16(p, 2))
+	vAssert(p.Seq() == spec_be32(p, 4))
+	vAssert(p.Ack() == spec_be32(p, 8))
+	vAssert(p.HeaderLen() == 4*int(p[12]>>4))
+	vAssert(p.NS() == (p[12]&0x01 != 0))
+	vAssert(p.FIN() == (p[13]&0x01 != 0))
+	vAssert(p.SYN() == (p[13]&0x02 != 0))
+	vAssert(p.RST() == (p[13]&0x04 != 0))
+	vAssert(p.PSH() == (p[13]&0x08 != 0))
+	vAssert(p.ACK() == (p[13]&0x10 != 0))
+	vAssert(p.URG() == (p[13]&0x20 != 0))
+	vAssert(p.ECE() == (p[13]&0x40 != 0))
+	vAssert(p.CWR() == (p[13]&0x80 != 0))
+	vAssert(p.Window() == spec_be16(p, 14))
+	vAssert(p.Checksum() == spec_be16(p, 16))
+	vAssert(p.Urgent() == spec_be16(p, 18))
+	vAssert(spec_sub(p.Payload(), p, 4*int(p[12]>>4), len(p)))
+}
+
+//verif:props C02
+func verif_lemma_fields_ARP(p ARP) {
+	if p.IsValid() != nil {
+		return
+	}
+	vCanary()
+	vAssert(p.HType() == spec_be16(p, 0) && p.HType() == 1)
+	vAssert(p.Proto() == spec_be16(p, 2) && p.Proto() == 0x0800)
+	vAssert(p.HLen() == p[4] && p.HLen() == 6)
+	vAssert(p.PLen() == p[5] && p.PLen() == 4)
+	vAssert(p.Operation() == spec_be16(p, 6))
+	vAssert(spec_sub(p.SrcMAC(), p, 8, 14))
+	vAssert(p.SrcIP() == spec_ip4_at(p, 14))
+	vAssert(spec_sub(p.DstMAC(), p, 18, 24))
+	vAssert(p.DstIP() == spec_ip4_at(p, 24))
+}
+
+//verif:props C02
+func verif_lemma_fields_ICMP(p ICMP) {
+	if p.IsValid() != nil {
+		return
+	}
+	vCanary()
+	vAssert(p.Type() == p[0])
+	vAssert(p.Code() == p[1])
+	vAssert(p.Checksum() == spec_be16(p, 2))
+	vAssert(spec_sub(p.RestOfHeader(), p, 4, 8))
+	vAssert(len(p.Payload()) == len(p)-8 && (len(p) == 8 || spec_sub(p.Payload(), p, 8, len(p))))
+}
+
+//verif:props C02
+func verif_lemma_fields_ICMPEcho(p ICMPEcho) {
+	if p.IsValid() != nil {
+		return
+	}
+	vCanary()
+	vAssert(p.Type() == p[0])
+	vAssert(p.Code() == p[1])
+	vAssert(p.Checksum() == spec_be16(p, 2))
+	vAssert(p.EchoID() == spec_be16(p, 4))
+	vAssert(p.EchoSeq() == spec_be16(p, 6))
+	vAssert(spec_sub(p.EchoData(), p, 8, len(p)))
+}
+
+//verif:props C02
+func verif_lemma_fields_ICMP6RA(p ICMP6RouterAdvertisement) {
+	if p.IsValid() != nil {
+		return
+	}
+	vCanary()
+	vAssert(p.Type() == p[0] && p.Code() == p[1])
+	vAssert(p.Checksum() == int(spec_be16(p, 2)))
+	vAssert(p.CurrentHopLimit() == p[4])
+	vAssert(p.ManagedConfiguration() == (p[5]&0x80 != 0))
+	vAssert(p.OtherConfiguration() == (p[5]&0x40 != 0))
+	vAssert(p.HomeAgent() == (p[5]&0x20 != 0))
+	vAssert(p.Preference() == (p[5]>>3)&0x03)
+	vAssert(p.ProxyFlag() == (p[5]&0x04 != 0))
+	vAssert(p.Flags() == p[5])
+	vAssert(p.Lifetime() == spec_be16(p, 6))
+	vAssert(p.ReachableTime() == spec_be32(p, 8))
+	vAssert(p.RetransmitTimer() == spec_be32(p, 12))
+}
+
+//verif:props C02
+func verif_lemma_fields_ICMP6NA(p ICMP6NeighborAdvertisement) {
+	if p.IsValid() != nil {
+		return
+	}
+	vCanary()
+	vAssert(p.Type() == p[0] && p.Code() == p[1])
+	vAssert(p.Checksum() == int(spec_be16(p, 2)))
+	vAssert(p.Router() == (p[4]&0x80 != 0))
+	vAssert(p.Solicited() == (p[4]&0x40 != 0))
+	vAssert(p.Override() == (p[4]&0x20 != 0))
+	vAssert(p.TargetAddress() == spec_ip6_at(p, 8))
+	if len(p) >= 32 && p[24] == 2 && p[25] == 1 {
+		vAssert(spec_sub(p.TargetLLA(), p, 26, 32))
+	} else {
+		vAssert(p.TargetLLA() == nil)
+	}
+}
+
+//verif:props C02
+func verif_lemma_fields_ICMP6NS(p ICMP6NeighborSolicitation) {
+	if p.IsValid() != nil {
+		return
+	}
+	vCanary()
+	vAssert(p.Type() == p[0] && p.Code() == p[1])
+	vAssert(p.Checksum() == int(spec_be16(p, 2)))
+	vAssert(p.TargetAddress() == spec_ip6_at(p, 8))
+	if len(p) >= 32 && p[24] == 1 && p[25] == 1 {
+		vAssert(spec_sub(p.SourceLLA(), p, 26, 32))
+	} else {
+		vAssert(p.SourceLLA() == nil)
+	}
+}
+
+//verif:props C02
+func verif_lemma_fields_ICMP6Redirect(p ICMP6Redirect) {
+	if p.IsValid() != nil {
+		return
+	}
+	vCanary()
+	vAssert(p.Type() == p[0] && p.Code() == p[1])
+	vAssert(p.Checksum() == int(spec_be16(p, 2)))
+	vAssert(spec_sub(p.TargetAddress(), p, 8, 24))
+	vAssert(spec_sub(p.DstAddress(), p, 24, 40))
+	if len(p) >= 48 && p[40] == 2 && p[41] == 1 {
+		vAssert(spec_sub(p.TargetLinkLayerAddr(), p, 42, 48))
+	} else {
+		vAssert(p.TargetLinkLayerAddr() == nil)
+	}
+}
+
+//verif:props C02
+func verif_lemma_fields_ICMP4Redirect(p ICMP4Redirect) {
+	if p.IsValid() != nil {
+		return
+	}
+	vCanary()
+	vAssert(p.Type() == p[0] && p.Code() == p[1])
+	vAssert(p.Checksum() == spec_be16(p, 2))
+	vAssert(p.NumAddrs() == p[4])
+	vAssert(p.AddrSize() == p[5])
+	vAssert(p.Lifetime() == spec_be16(p, 6))
+	// the address list follows the 8-byte header
+	addrs := p.Addrs()
+	vAssert(len(addrs) == int(p[4]))
+	if len(addrs) > 0 {
+		vAssert(vSameRegion(addrs[0], p) && vOffset(addrs[0], p) == 8)
+	}
+}
+
+//verif:props C02
+func verif_lemma_fields_DHCP4(p DHCP4) {
+	if p.IsValid() != nil {
+		return
+	}
+	vCanary()
+	vAssert(p.OpCode() == DHCP4OpCode(p[0]))
+	vAssert(p.HType() == p[1] && p.HLen() == p[2] && p.Hops() == p[3])
+	vAssert(spec_sub(p.XId(), p, 4, 8))
+	vAssert(p.Secs() == spec_be16(p, 8))
+	vAssert(p.Flags() == spec_be16(p, 10))
+	vAssert(p.Broadcast() == (p[10]&0x80 != 0))
+	vAssert(p.CIAddr() == spec_ip4_at(p, 12))
+	vAssert(p.YIAddr() == spec_ip4_at(p, 16))
+	vAssert(p.SIAddr() == spec_ip4_at(p, 20))
+	vAssert(p.GIAddr() == spec_ip4_at(p, 24))
+	vAssert(spec_sub(p.CHAddr(), p, 28, 34))
+	vAssert(spec_sub(p.Cookie(), p, 236, 240))
+	vAssert(spec_sub(p.Options(), p, 240, len(p)))
+}
+
+//verif:props C02
+func verif_lemma_fields_DNS(p DNS) {
+	if p.IsValid() != nil {
+		return
+	}
+	vCanary()
+	vAssert(p.TransactionID() == spec_be16(p, 0))
+	vAssert(p.QR() == (p[2]&0x80 != 0))
+	vAssert(p.OpCode() == int(p[2]>>3)&0x0f)
+	vAssert(p.AA() == (p[2]&0x04 != 0))
+	vAssert(p.TC() == (p[2]&0x02 != 0))
+	vAssert(p.RD() == (p[2]&0x01 != 0))
+	vAssert(p.RA() == (p[3]&0x80 != 0))
+	vAssert(p.Z() == (p[3]>>4)&0x07)
+	vAssert(p.ResponseCode() == int(p[3]&0x0f))
+	vAssert(p.QDCount() == spec_be16(p, 4))
+	vAssert(p.ANCount() == spec_be16(p, 6))
+	vAssert(p.NSCount() == spec_be16(p, 8))
+	vAssert(p.ARCount() == spec_be16(p, 10))
+}
+
+//verif:props C02
+func verif_lemma_fields_L2(p []byte) {
+	if llc := LLC(p); llc.IsValid() == nil {
+		vAssert(llc.DSAP() == p[0] && llc.SSAP() == p[1] && llc.Control() == p[2])
+	}
+	if s := SNAP(p); s.IsValid() == nil {
+		vAssert(s.DSAP() == p[0] && s.SSAP() == p[1] && s.Control() == p[2])
+		vAssert(spec_sub(s.OrganisationID(), p, 3, 6))
+		vAssert(s.EtherType() == spec_be16(p, 6))
+		vAssert(spec_sub(s.Payload(), p, 8, len(p)))
+	}
+	if r := RRCP(p); r.IsValid() == nil {
+		vAssert(r.Protocol() == p[0])
+		vAssert(r.Reply() == (p[1]&0x80 != 0))
+		vAssert(r.OpCode() == p[1]&0x7f)
+		vAssert(r.AuthKey() == spec_be16(p, 2))
+		vAssert(r.RegisterAddr() == spec_be16(p, 4))
+		vAssert(r.RegisterData() == spec_be16(p, 6))
+	}
+	if e := IEEE1905(p); e.IsValid() == nil {
+		vAssert(e.Version() == p[0] && e.Reserved() == p[1])
+		vAssert(e.Type() == spec_be16(p, 2))
+		vAssert(e.ID() == spec_be16(p, 4))
+		vAssert(e.FragmentID() == p[6] && e.Flags() == p[7])
+		vAssert(spec_sub(e.TLV(), p, 8, len(p)))
+	}
+	if e := EthernetPause(p); e.IsValid() == nil {
+		vCanary()
+		vAssert(e.Opcode() == spec_be16(p, 0) && e.Opcode() == 1)
+		vAssert(e.Duration() == spec_be16(p, 2))
+		vAssert(spec_sub(e.Reserved(), p, 4, len(p)))
+	}
+}
